@@ -33,6 +33,10 @@ def figdesc(plt, ret):
     d["polygons"] = polys
     d["bars"] = bars
     d["legend"] = ax.get_legend() is not None
+    # drawing order: (zorder, insertion index) of every marker collection and of every region polygon
+    order = {id(a): i for i, a in enumerate(ax.get_children())}
+    d["marker_order"] = [[float(c.get_zorder()), order.get(id(c), 0)] for c in ax.collections]
+    d["polygon_order"] = [[float(p.get_zorder()), order.get(id(p), 0)] for p in ax.patches if not isinstance(p, mp.Rectangle)]
     return d
 
 
